@@ -681,6 +681,26 @@ def decscale_rule(ctx):
     ctx.ob('DECSCALE', 'serialize/scale-mismatch-errs', ok, loc0, detail)
     ctx.ob('DECSCALE', 'serialize/sign-aware-truncation-helper', uses >= 2, loc0,
            'sign-aware truncation helper called %d time(s) (bytes repr and fixed fit check)' % uses)
+    # inside the helper: when the run of sign bytes reaches the end of the buffer (value 0 or -1) one byte is kept.
+    # Recognised idiom: `buf.get(i).map_or(DEFAULT, ..)` guarding the `-= 1`; DEFAULT is the constant true on every path
+    # (for -1, dropping every 0xFF byte would encode the value 0).  Other idioms are not judged.
+    hb = [x for x in f.body_list if x.j['kind'] != 'closure' and x.name == 'can_truncate_without_altering_number']
+    if hb:
+        h = hb[0]
+        ctx.touched(h)
+        defaults = []
+        for bb, t in h.calls():
+            if strip_generics(cname(t)).endswith('Option::map_or') and any(call_matches(c, ['slice::<impl [T]>::get']) for c in origin(h, t['args'][0]).calls):
+                do = origin(h, t['args'][1])
+                is_const = len(do.atoms) == 1 and all(a[0] == 'const' for a in do.atoms) and not do.flags
+                defaults.append((is_const, sorted(str(a[1]) for a in do.atoms)))
+        # the loop conditions use map_or(false, ..); the keep-one-byte tests use map_or(true, ..): none may be computed
+        if defaults:
+            computed = [d for d in defaults if not d[0]]
+            trues = [d for d in defaults if d[0] and d[1] in (['True'], ['true'], ['1'])]
+            ctx.ob('DECSCALE', 'serialize/truncation-keeps-a-byte-at-end', not computed and len(trues) >= 1, short_loc(h.span),
+                   'end-of-buffer defaults of the sign-byte scans: %s; computed (non-constant) defaults: %d; constant-true (keep one byte) defaults: %d' % (
+                       [d[1] for d in defaults], len(computed), len(trues)))
     ctx.ob('DECSCALE', 'serialize/fixed-fit-check', fit, loc0, 'truncatable prefix compared with the bytes to drop (checked_sub result): %s' % fit)
 
 
